@@ -203,6 +203,11 @@ def rule_chunk(run):
         if m.startswith('write_'): n += chunk_rule(run, prog, fi, [tab], 'write')
         elif m.startswith('read_'): n += chunk_rule(run, prog, fi, [tab], 'read')
     run.count('chunk_loops', n)
+    from .io_common import linecount_rule
+    m = 0
+    for name, fi in sorted(prog.cls('t2data', 't2data').methods.items()):
+        if name.startswith(('write_', 'read_')): m += linecount_rule(run, fi, [tab], rule='CHUNK')
+    run.count('line_count_expressions', m)
 
 
 # ---------------------------------------------------------------------------
